@@ -243,7 +243,7 @@ package eval
 // the node-IP shortcut must never change a verdict: connectivity does not depend on status.hostIP (C17, C01)
 //@ func isPeerNodeIP
 //@   requires peerOK(peer1) && peerOK(peer2)
-//@   ensures [C17,C01,C12] noeffect: !res
+//@   ensures [C17,C01,C12,C03] noeffect: !res
 
 // ---------------------------------------------------------------------------------------------
 // NetworkPolicy layer of the engine (C01, C14): which policies govern a pod, and what they allow together
@@ -743,3 +743,93 @@ package eval
 //@   requires evalReady(pe, src, dst)
 //@   modifies *
 //@   ensures [C03,C02] agrees: (res1 == nil && canonQuery(protocol, port)) ==> res0 == !banpDenies(pe, src, dst, isIngress, canonProto(protocol), atoiVal(port))
+
+// ---------------------------------------------------------------------------------------------
+// The IP peers of the report (C05, C01): single contiguous ranges, pairwise disjoint, together covering 0.0.0.0-255.255.255.255,
+// so every address belongs to exactly one peer. What is verified here: only single ranges are handed to the partition
+// function, and the whole address space is among its inputs; the partition function itself is the assumed contract A-netset.
+// ---------------------------------------------------------------------------------------------
+//@ import netset "github.com/np-guard/models/pkg/netset"
+//@ pred rangesOK(l []*netset.IPBlock) = forall i int :: {l[i]} (0 <= i && i < len(l)) ==> (l[i] != nil && isRange(ipset(l[i])))
+//@ func (*PolicyEngine).getDisjointIPBlocks
+//@   requires pe != nil && netpolsOK(pe)
+//@   modifies *
+//@   ensures [C05,C01] ranges: res1 == nil ==> rangesOK(res0)
+//@   ensures [C05,C01] disjoint: res1 == nil ==> (forall k int, l int, a int :: {ipset(res0[k])[a], ipset(res0[l])[a]} (0 <= k && k < l && l < len(res0)) ==> !(ipset(res0[k])[a] && ipset(res0[l])[a]))
+//@   ensures [C05,C01] covers: res1 == nil ==> (forall a int :: {ipv4Addr(a)} ipv4Addr(a) ==> (exists k int :: {res0[k]} 0 <= k && k < len(res0) && ipset(res0[k])[a]))
+//@   loop 1:
+//@     invariant ranges: rangesOK(ipbList) && netpolsOK(pe)
+//@   loop 2:
+//@     invariant ranges: rangesOK(ipbList) && netpolsOK(pe)
+
+// ---------------------------------------------------------------------------------------------
+// Workload peers (C17, C19): every pod is represented by the peer of ITS OWN workload - namespace/owner[kind] - and pods of one
+// owner with different labels are rejected wherever they sit in the map
+// ---------------------------------------------------------------------------------------------
+//@ pred podsMapOK(pe *PolicyEngine) = pe.podsMap != nil && (forall k string :: {k in pe.podsMap} k in pe.podsMap ==> (pe.podsMap[k] != nil && !hasLabel(pe.podsMap[k].Labels, "")))
+//@ pred ownersMapOK(pe *PolicyEngine) = pe.podOwnersToRepresentativePodMap != nil
+//@     && (forall ns string :: {ns in pe.podOwnersToRepresentativePodMap} ns in pe.podOwnersToRepresentativePodMap ==> (pe.podOwnersToRepresentativePodMap[ns] != nil
+//@           && (forall o string :: {o in pe.podOwnersToRepresentativePodMap[ns]} o in pe.podOwnersToRepresentativePodMap[ns] ==>
+//@                 (pe.podOwnersToRepresentativePodMap[ns][o] != nil && !hasLabel(pe.podOwnersToRepresentativePodMap[ns][o].Labels, "")))
+//@           && pe.podOwnersToRepresentativePodMap[ns] != pe.podsMap))
+//@ fun wlName(pod *k8s.Pod) string = if pod.Owner.Name == "" then pod.Name else pod.Owner.Name
+//@ fun wlKind(pod *k8s.Pod) string = if pod.FakePod && pod.Name == "representative-pod" then "RepresentativePeer" else (if pod.Owner.Kind == "" then "Pod" else pod.Owner.Kind)
+//@ fun wlStr(pod *k8s.Pod) string = if pod.FakePod then ("{" + pod.Name) + "}" else ((strJoin2Name(pod.Namespace, wlName(pod)) + "[") + wlKind(pod)) + "]"
+
+// a pod with an owner is accepted iff no pod of that owner was recorded before, or the recorded one carries the same labels
+//@ func (*PolicyEngine).checkConsistentLabelsForPodsOfSameOwner
+//@   requires pe != nil && ownersMapOK(pe) && newPod != nil && !hasLabel(newPod.Labels, "")
+//@   modifies map[string]map[string]*k8s.Pod { m | m == pe.podOwnersToRepresentativePodMap }
+//@   modifies map[string]*k8s.Pod { m | m != pe.podsMap }
+//@   ensures [C19,C17] conflict: (newPod.Owner.Name != "" && old(newPod.Namespace in pe.podOwnersToRepresentativePodMap && newPod.Owner.Name in pe.podOwnersToRepresentativePodMap[newPod.Namespace]
+//@         && !sameLabels(pe.podOwnersToRepresentativePodMap[newPod.Namespace][newPod.Owner.Name].Labels, newPod.Labels))) ==> res != nil
+//@   ensures [C19] noowner: newPod.Owner.Name == "" ==> res == nil
+//@   ensures [C19,C17] recorded: (newPod.Owner.Name != "" && res == nil) ==> (newPod.Namespace in pe.podOwnersToRepresentativePodMap && newPod.Owner.Name in pe.podOwnersToRepresentativePodMap[newPod.Namespace]
+//@         && sameLabels(pe.podOwnersToRepresentativePodMap[newPod.Namespace][newPod.Owner.Name].Labels, newPod.Labels))
+//@   ensures [C19] kept: ownersMapOK(pe)
+
+//@ func (*PolicyEngine).createPodOwnersMap
+//@   requires pe != nil && podsMapOK(pe) && ownersMapOK(pe)
+//@   modifies *
+//@   ensures [C17] keyed: res1 == nil ==> (res0 != nil && (forall key string :: {key in res0} key in res0 ==> (dyntype(res0[key], *k8s.WorkloadPeer) && unwrap(res0[key], *k8s.WorkloadPeer) != nil && allocated(unwrap(res0[key], *k8s.WorkloadPeer))
+//@         && unwrap(res0[key], *k8s.WorkloadPeer).Pod != nil && key == wlStr(unwrap(res0[key], *k8s.WorkloadPeer).Pod))))
+//@   ensures [C17] member: res1 == nil ==> (forall key string :: {key in res0} key in res0 ==> (exists name string :: {name in pe.podsMap} name in pe.podsMap && unwrap(res0[key], *k8s.WorkloadPeer).Pod == pe.podsMap[name]))
+//@   ensures [C17] complete: res1 == nil ==> (forall name string :: {name in pe.podsMap} name in pe.podsMap ==> wlStr(pe.podsMap[name]) in res0)
+//@   ensures [C17] pods: pe.podsMap == old(pe.podsMap) && dom(pe.podsMap) == old(dom(pe.podsMap))
+//@   loop 1:
+//@     invariant ok: podsMapOK(pe) && ownersMapOK(pe) && pe.podsMap == pre(pe.podsMap) && res != nil && res != pe.podsMap
+//@     invariant same: dom(pe.podsMap) == pre(dom(pe.podsMap)) && (forall k string :: {pe.podsMap[k]} pe.podsMap[k] == pre(pe.podsMap[k]))
+//@     invariant keyed: forall key string :: {key in res} key in res ==> (dyntype(res[key], *k8s.WorkloadPeer) && unwrap(res[key], *k8s.WorkloadPeer) != nil && allocated(unwrap(res[key], *k8s.WorkloadPeer))
+//@         && unwrap(res[key], *k8s.WorkloadPeer).Pod != nil && key == wlStr(unwrap(res[key], *k8s.WorkloadPeer).Pod))
+//@     invariant member: forall key string :: {key in res} key in res ==> (exists name string :: {name in pe.podsMap} name in pe.podsMap && unwrap(res[key], *k8s.WorkloadPeer).Pod == pe.podsMap[name])
+//@     invariant complete: forall name string :: {seen(name)} seen(name) ==> wlStr(pe.podsMap[name]) in res
+
+// the peers of the report: one IP peer per block of the partition (so: single ranges, pairwise disjoint, covering every
+// address) followed by one workload peer per entry of the owners map (so: every pod's workload is among them)
+//@ fun plBlk(p Peer) *netset.IPBlock = unwrap(p, *k8s.IPBlockPeer).IPBlock
+//@ func (*PolicyEngine).GetPeersList
+//@   requires pe != nil && podsMapOK(pe) && ownersMapOK(pe) && netpolsOK(pe)
+//@   modifies *
+//@   ensures [C05,C17] kinds: res1 == nil ==> (forall i int :: {res0[i]} (0 <= i && i < len(res0) && res0[i] != nil) ==> (
+//@         (dyntype(res0[i], *k8s.IPBlockPeer) && unwrap(res0[i], *k8s.IPBlockPeer) != nil && plBlk(res0[i]) != nil && isRange(ipset(plBlk(res0[i]))))
+//@      || (dyntype(res0[i], *k8s.WorkloadPeer) && unwrap(res0[i], *k8s.WorkloadPeer) != nil && unwrap(res0[i], *k8s.WorkloadPeer).Pod != nil)))
+//@   ensures [C05,C01] disjoint: res1 == nil ==> (forall i int, j int, a int :: {ipset(plBlk(res0[i]))[a], ipset(plBlk(res0[j]))[a]}
+//@         (0 <= i && i < j && j < len(res0) && dyntype(res0[i], *k8s.IPBlockPeer) && dyntype(res0[j], *k8s.IPBlockPeer)) ==> !(ipset(plBlk(res0[i]))[a] && ipset(plBlk(res0[j]))[a]))
+//@   ensures [C05,C01] covers: res1 == nil ==> (forall a int :: {ipv4Addr(a)} ipv4Addr(a) ==> (exists i int :: {res0[i]} 0 <= i && i < len(res0) && dyntype(res0[i], *k8s.IPBlockPeer) && ipset(plBlk(res0[i]))[a]))
+//@   ensures [C17] workloads: res1 == nil ==> (forall name string :: {name in pe.podsMap} name in pe.podsMap ==>
+//@         (exists i int :: {res0[i]} 0 <= i && i < len(res0) && dyntype(res0[i], *k8s.WorkloadPeer) && wlStr(unwrap(res0[i], *k8s.WorkloadPeer).Pod) == wlStr(pe.podsMap[name])))
+//@   after call 2:
+//@     assert [C17] owners: err == nil ==> (podOwnersMap != nil && (forall key string :: {key in podOwnersMap} key in podOwnersMap ==> (dyntype(podOwnersMap[key], *k8s.WorkloadPeer) && unwrap(podOwnersMap[key], *k8s.WorkloadPeer) != nil
+//@         && allocated(unwrap(podOwnersMap[key], *k8s.WorkloadPeer)) && unwrap(podOwnersMap[key], *k8s.WorkloadPeer).Pod != nil && key == wlStr(unwrap(podOwnersMap[key], *k8s.WorkloadPeer).Pod)))
+//@         && (forall name string :: {name in pe.podsMap} name in pe.podsMap ==> wlStr(pe.podsMap[name]) in podOwnersMap))
+//@   loop 1:
+//@     invariant len: len(res) == len(ipBlocks) + len(podOwnersMap)
+//@     invariant rest: forall k int :: {res[k]} (rangeindex < k && k < len(res)) ==> res[k] == nil
+//@     invariant ips: forall k int :: {res[k]} (0 <= k && k <= rangeindex) ==> (dyntype(res[k], *k8s.IPBlockPeer) && unwrap(res[k], *k8s.IPBlockPeer) != nil && allocated(unwrap(res[k], *k8s.IPBlockPeer)) && plBlk(res[k]) == ipBlocks[k])
+//@   loop 2:
+//@     invariant len: len(res) == len(ipBlocks) + len(podOwnersMap) && index == len(ipBlocks) + seencount() && index <= len(res)
+//@     invariant ips: forall k int :: {res[k]} {ipBlocks[k]} (0 <= k && k < len(ipBlocks)) ==> (dyntype(res[k], *k8s.IPBlockPeer) && unwrap(res[k], *k8s.IPBlockPeer) != nil && plBlk(res[k]) == ipBlocks[k])
+//@     invariant rest: forall k int :: {res[k]} (index <= k && k < len(res)) ==> res[k] == nil
+//@     invariant wls: forall k int :: {res[k]} (len(ipBlocks) <= k && k < index) ==> (dyntype(res[k], *k8s.WorkloadPeer) && unwrap(res[k], *k8s.WorkloadPeer) != nil && unwrap(res[k], *k8s.WorkloadPeer).Pod != nil)
+//@     invariant done: forall key string :: {seen(key)} {key in podOwnersMap} seen(key) ==> (exists k int :: {res[k]} len(ipBlocks) <= k && k < index && dyntype(res[k], *k8s.WorkloadPeer) && wlStr(unwrap(res[k], *k8s.WorkloadPeer).Pod) == key)
+//@     invariant owners: forall name string :: {name in pe.podsMap} name in pe.podsMap ==> wlStr(pe.podsMap[name]) in podOwnersMap
